@@ -99,7 +99,7 @@ def thorough_variants(pid):
     from .variants import VARIANTS
     have = {v["id"] for v in vs}
     for v in VARIANTS:
-        if v["expect"] == "silent" and v["id"] not in have:
+        if v["expect"] == "silent" and v["id"] not in have and not v.get("only"):
             w = dict(v)
             w["props"] = [pid]
             w["id"] = v["id"] + "@" + pid
